@@ -42,19 +42,19 @@ func (m *collection) statsSegmentsLOCKED(rv *CollectionStats) {
 	var sssClean *SegmentStackStats
 
 	if m.stackDirtyTop != nil {
-		sssDirtyTop = m.stackDirtyTop.Stats()
+		sssDirtyTop = m.stackDirtyTop.statsAll()
 	}
 
 	if m.stackDirtyMid != nil {
-		sssDirtyMid = m.stackDirtyMid.Stats()
+		sssDirtyMid = m.stackDirtyMid.statsAll()
 	}
 
 	if m.stackDirtyBase != nil {
-		sssDirtyBase = m.stackDirtyBase.Stats()
+		sssDirtyBase = m.stackDirtyBase.statsAll()
 	}
 
 	if m.stackClean != nil {
-		sssClean = m.stackClean.Stats()
+		sssClean = m.stackClean.statsAll()
 	}
 
 	sssDirty := &SegmentStackStats{}
